@@ -685,9 +685,8 @@ def stabilizer_entropy(gs, mask):
     if L == N: # state is pure
         entropy = z2rank(acq_mat(gs_across_sub))//2
     else:
-        strict = numpy.sum(inside) - numpy.sum(across)
-        hidden = z2rank(gs_across_sub) - z2rank(acq_mat(gs_across_sub))
-        entropy = numpy.sum(mask) - strict - hidden
+        # |A| minus the number of independent stabilizers supported inside A
+        entropy = numpy.sum(mask) - (L - z2rank(gs[:, ~mask2]))
     return entropy
 
 # ---- Z2 linear algebra ----
